@@ -22,7 +22,7 @@ def main(argv=None) -> int:
         mod = importlib.import_module(f"sa.checks.{prop.lower()}")
         mod.run(rep, a.tier)
         rc = rep.finish()
-        if a.tier == "thorough" and hasattr(mod, "selftest"):
+        if a.tier == "thorough":
             from sa import selftest
             rc2 = selftest.run_for(prop)
             if rc2 != 0 and rc == 0:
